@@ -335,33 +335,41 @@ def signature_forms(ctx):
 # ---- W-ambient ------------------------------------------------------------------------------------------------
 
 
-def run_ambient(ctx):
-    """Run the repository's own suite under the record-only contract + poison sanitizer (thorough, shard 0)."""
-    log = os.path.join(core.ROOT, '.work', 'ambient_c03_%d.json' % os.getpid())
+def ambient_suite(ctx, extra_env, tag):
+    """Run the repository's own suite under the record-only monitors (plugin vf.ambient); returns its log or None."""
+    import json
+    log = os.path.join(core.ROOT, '.work', 'ambient_%s_%d.json' % (tag, os.getpid()))
     os.makedirs(os.path.dirname(log), exist_ok=True)
     env = dict(os.environ)
     env['VF_AMBIENT_LOG'] = log
-    env['VF_AMBIENT_SHADOW'] = '0'
-    env['PYTHONPATH'] = core.ROOT + os.pathsep + env.get('PYTHONPATH', '')
+    env.update(extra_env)
+    env['PYTHONPATH'] = core.REPO + os.pathsep + core.ROOT + os.pathsep + env.get('PYTHONPATH', '')
     try:
-        subprocess.run([core.PYTHON, '-m', 'pytest', '-q', '-x', '--no-header', '-p', 'no:cacheprovider', '-p', 'vf.ambient',
+        subprocess.run([core.PYTHON, '-m', 'pytest', '-q', '--no-header', '-p', 'no:cacheprovider', '-p', 'vf.ambient',
                         '--timeout=900', os.path.join(core.REPO, 'odl')], cwd=core.REPO, env=env,
-                       stdout=subprocess.DEVNULL, stderr=subprocess.DEVNULL, timeout=1500)
+                       stdout=subprocess.DEVNULL, stderr=subprocess.DEVNULL, timeout=1800)
     except subprocess.TimeoutExpired:
         ctx.inconclusive_because('ambient suite run: watchdog')
-        return
+        return None
     if not os.path.exists(log):
         ctx.inconclusive_because('ambient suite run produced no log')
-        return
-    import json
+        return None
     with open(log) as f:
         data = json.load(f)
     os.remove(log)
+    return data
+
+
+def run_ambient(ctx):
+    """W-ambient (thorough, shard 0): test pass / fail is ignored, only recorded contract violations count."""
+    data = ambient_suite(ctx, {'VF_AMBIENT_SHADOW': '0'}, 'c03')
+    if data is None:
+        return
     ctx.ev('call-contract', int(data['stats'].get('calls', 0)))
     ctx.note('ambient', {'calls': data['stats'].get('calls', 0), 'aliased': data['stats'].get('aliased', 0),
-                         'poisoned_elements': data.get('poisoned', 0)})
+                         'poisoned_elements': data.get('poisoned', 0), 'pytest_exitstatus': data.get('exitstatus')})
     for v in data['violations']:
-        ctx.violation(v['component'], 'ambient:' + v['config'], v['kind'], where='repository test-suite (W-ambient)')
+        ctx.violation(v['component'], 'ambient:' + v['config'], v['kind'], where='repository test-suite (W-ambient)', count=v['count'])
 
 
 def run(ctx):
